@@ -273,6 +273,38 @@ def work(job):
                     part.violation(key, what, case)
                 if k % 1999 == 1:
                     part.sample(case)
+    elif kind == 'charprobes':
+        # every ASCII character (and a few others) at the first, middle and last position of an identifier,
+        # alone and as one element of a dotted / '::' name
+        chars = [chr(i) for i in range(0, 128)] + ['\x85', '\xa0', 'é', 'ß', '\u2028', '\uff21', '٣']
+        for ch in chars:
+            for s_ in (ch, ch + 'x', 'x' + ch, 'x' + ch + 'y', 'a.' + 'x' + ch, 'x' + ch + '::b', ch * 2):
+                case = {'kind': 'string', 's': s_}
+                res = judge(case)
+                part.evaluations += 1
+                part.transitions += 1
+                part.states += 1
+                part.nontrivial += 1
+                part.outcome('string:' + ('violation' if res else 'ok'))
+                for key, what in res:
+                    part.violation(key, what, case)
+        # the same through the list notation and the dataclass constructor
+        from dznpy.scoping import NamespaceIds, NamespaceIdsTypeError, namespaceids_t  # pylint: disable=import-outside-toplevel
+        for ch in chars:
+            for ident in (ch, 'x' + ch, ch + 'x', 'x' + ch + 'y'):
+                for maker in (lambda i: namespaceids_t(['ok', i]), lambda i: NamespaceIds(['ok', i])):
+                    part.evaluations += 1
+                    try:
+                        maker(ident)
+                        accepted = True
+                    except NamespaceIdsTypeError:
+                        accepted = False
+                    except Exception as exc:  # pylint: disable=broad-except
+                        part.violation(f'idlist-exception:{type(exc).__name__}', repr(ident), {'kind': 'idlist', 'ids': ['ok', ident]})
+                        continue
+                    if accepted != valid_id(ident):
+                        part.violation('invalid-identifier-handed-out' if accepted else 'valid-identifier-rejected',
+                                       f'list notation: {ident!r}', {'kind': 'idlist', 'ids': ['ok', ident]})
     elif kind == 'idlists':
         pool = ['a', 'Z9', '_x']
         for n in range(0, 4):
@@ -306,7 +338,7 @@ def explore(ctx):
     jobs = [('decls', sets[i::32]) for i in range(32)]
     maxlen = 5 if ctx.thorough else 4
     jobs += [('strings', (i, 16, maxlen)) for i in range(16)]
-    jobs += [('idlists', None)]
+    jobs += [('idlists', None), ('charprobes', None)]
     for part in pmap(work, jobs):
         ctx.merge(part)
     ctx.rule = ('declaration sets built one declaration at a time over the 39 FQNs of {a,b,ab}^<=3 (full set, '
